@@ -196,6 +196,8 @@ def fix_prog(p):
 
 
 def main():
+    # 16 parallel kddp processes with 16 GC threads each only fight for the cores
+    os.environ.setdefault("GOMAXPROCS", "2")
     ck = Check(PID, "proof")
     b = Build()
     ck.cov["trusted_base"] = vlib.TRUSTED_COMMON + [
